@@ -10,9 +10,11 @@ import (
 	"testing"
 	"time"
 
+	"github.com/twmb/franz-go/pkg/kbin"
 	"github.com/twmb/franz-go/pkg/kerr"
 	"github.com/twmb/franz-go/pkg/kfake"
 	"github.com/twmb/franz-go/pkg/kgo"
+	"github.com/twmb/franz-go/pkg/kmsg"
 
 	"verif/lib/netctl"
 	"verif/lib/nrun"
@@ -46,14 +48,16 @@ type state struct {
 	cl  *kgo.Client
 	led *nscen.Ledger
 
-	mu       sync.Mutex
-	names    map[*kgo.Record]string
-	outcomes map[string][]outcome // what each promise invocation saw (Offset/Partition read inside the promise)
-	produced map[int32][]string   // order in which Produce was called, per partition
-	nparts   int32
-	total    int           // records the scenario produces
-	allDone  chan struct{} // closed when every record was promised
-	relaxed  bool // AllowIdempotentProduceCancellation: an error-promised record may be in the log
+	mu        sync.Mutex
+	names     map[*kgo.Record]string
+	outcomes  map[string][]outcome // what each promise invocation saw (Offset/Partition read inside the promise)
+	produced  map[int32][]string   // order in which Produce was called, per partition
+	attempts  map[string]int       // Produce requests delivered to a broker that carried the record
+	onProduce func()
+	nparts    int32
+	total     int           // records the scenario produces
+	allDone   chan struct{} // closed when every record was promised
+	relaxed   bool          // AllowIdempotentProduceCancellation: an error-promised record may be in the log
 }
 
 func (st *state) record(name string, p int32) *kgo.Record {
@@ -79,6 +83,39 @@ func (st *state) promise() func(*kgo.Record, error) {
 		st.mu.Unlock()
 		lp(r, err)
 	}
+}
+
+// producedNames decodes a Produce request frame and returns the names of the
+// records in it.
+func producedNames(frame []byte) []string {
+	req, _, ok := netctl.DecodeRequest(frame)
+	if !ok {
+		return nil
+	}
+	pr, ok := req.(*kmsg.ProduceRequest)
+	if !ok {
+		return nil
+	}
+	var out []string
+	for _, t := range pr.Topics {
+		for _, p := range t.Partitions {
+			var b kmsg.RecordBatch
+			if err := b.ReadFrom(p.Records); err != nil {
+				continue
+			}
+			recs := b.Records
+			for i := int32(0); i < b.NumRecords; i++ {
+				var r kmsg.Record
+				rl, n := kbin.Varint(recs)
+				if n <= 0 || int(rl)+n > len(recs) || r.ReadFrom(recs[:int(rl)+n]) != nil {
+					break
+				}
+				recs = recs[int(rl)+n:]
+				out = append(out, nameOf(string(r.Value)))
+			}
+		}
+	}
+	return out
 }
 
 func nameOf(v string) string {
@@ -147,7 +184,7 @@ func scenario(v variant) *netctl.Scenario {
 				c.MoveTopicPartition("t", 1, 1)
 			}
 			st := &state{c: c, led: nscen.NewLedger(), names: map[*kgo.Record]string{}, outcomes: map[string][]outcome{},
-				produced: map[int32][]string{}, nparts: v.nparts, relaxed: v.relaxed, total: len(v.recs), allDone: make(chan struct{})}
+				produced: map[int32][]string{}, attempts: map[string]int{}, nparts: v.nparts, relaxed: v.relaxed, total: len(v.recs), allDone: make(chan struct{})}
 			x.Data = st
 			opts := append([]kgo.Opt{
 				kgo.RecordPartitioner(kgo.ManualPartitioner()),
@@ -157,6 +194,21 @@ func scenario(v variant) *netctl.Scenario {
 				kgo.ProduceRequestTimeout(5 * time.Second),
 			}, v.opts...)
 			st.cl = nscen.NewClient(x, "p", c, opts...)
+			// Every Produce request that reaches a broker: which records it
+			// carries (attempt counts are part of the observed outcome class).
+			x.FrameHook = func(_ *netctl.Conn, dir string, key, _ int16, frame []byte) {
+				if dir != "req" || key != 0 {
+					return
+				}
+				if st.onProduce != nil {
+					st.onProduce()
+				}
+				st.mu.Lock()
+				for _, n := range producedNames(frame) {
+					st.attempts[n]++
+				}
+				st.mu.Unlock()
+			}
 			cctx, cancel := context.WithCancel(context.Background())
 			x.OnCleanup(cancel)
 			x.Thread("T1", func(t *netctl.Thread) {
@@ -182,11 +234,7 @@ func scenario(v variant) *netctl.Scenario {
 				// request is unanswered, and deviations delay it.
 				first, giveUp := make(chan struct{}), make(chan struct{})
 				var once sync.Once
-				x.FrameHook = func(_ *netctl.Conn, dir string, key, _ int16, _ []byte) {
-					if dir == "req" && key == 0 {
-						once.Do(func() { close(first) })
-					}
-				}
+				st.onProduce = func() { once.Do(func() { close(first) }) }
 				x.OnCleanup(func() { close(giveUp) })
 				x.Thread("ENV", func(t *netctl.Thread) {
 					select {
@@ -333,9 +381,9 @@ func final(x *netctl.Exec) {
 		case len(oc) == 0:
 			cls = append(cls, n+"=none")
 		case oc[0].err == nil:
-			cls = append(cls, n+"=ok")
+			cls = append(cls, fmt.Sprintf("%s=ok/%d", n, st.attempts[n]))
 		default:
-			cls = append(cls, n+"=err:"+nscen.ErrClass(oc[0].err))
+			cls = append(cls, fmt.Sprintf("%s=err:%s/%d", n, errKind(oc[0].err), st.attempts[n]))
 		}
 	}
 	sort.Strings(cls)
@@ -343,7 +391,7 @@ func final(x *netctl.Exec) {
 }
 
 var (
-	six = []spec{{"r1", 0}, {"r2", 1}, {"r3", 0}, {"r4", 1}, {"r5", 0}, {"r6", 1}}
+	six  = []spec{{"r1", 0}, {"r2", 1}, {"r3", 0}, {"r4", 1}, {"r5", 0}, {"r6", 1}}
 	four = []spec{{"r1", 0}, {"r2", 0}, {"r3", 0}, {"r4", 0}}
 	// Fail paths. A batch may be failed once it was sent more than
 	// RecordRetries times or is older than RecordDeliveryTimeout, but only if
@@ -371,7 +419,7 @@ func TestC02(t *testing.T) {
 	nrun.Main(t, &nrun.Check{
 		ID: "C02", TestName: "TestC02", Plans: plans,
 		QuickTime: 75 * time.Second, ThorTime: 18 * time.Minute,
-		Rule: "engine N: every order of Produce calls, a leader move, request/response frame deliveries, timer ticks and injected faults (produce: connection kill before/after handling, NOT_LEADER, NOT_ENOUGH_REPLICAS, REQUEST_TIMED_OUT before and after append, NOT_ENOUGH_REPLICAS_AFTER_APPEND, stalled request; metadata/InitProducerID: kill before/after) within k deviations of the default order, for four idempotent-producer scenarios (one record per batch, pipelined requests; two partitions on two brokers; small RecordRetries + RecordDeliveryTimeout; single partition; AllowIdempotentProduceCancellation with a cancelled record context); distinct = distinct terminal outcomes (per-record promise class plus final log contents) per scenario",
+		Rule:   "engine N: every order of Produce calls, a leader move, request/response frame deliveries, timer ticks and injected faults (produce: connection kill before/after handling, NOT_LEADER, NOT_ENOUGH_REPLICAS, REQUEST_TIMED_OUT before and after append, NOT_ENOUGH_REPLICAS_AFTER_APPEND, stalled request; metadata/InitProducerID: kill before/after) within k deviations of the default order, for four idempotent-producer scenarios (one record per batch, pipelined requests; two partitions on two brokers; small RecordRetries + RecordDeliveryTimeout; single partition; AllowIdempotentProduceCancellation with a cancelled record context); distinct = distinct terminal outcomes (per-record promise class plus final log contents) per scenario",
 		Assume: []string{"kfake is the broker, including its duplicate window (C29/C32 check that)", "synctests build of xsync (C31 covers the channel mutexes)", "goroutine micro-interleavings inside one event are the Go runtime's"},
 	})
 }
